@@ -39,7 +39,8 @@ enum Op {
     AddIssuer { i: usize, topics: Vec<u32> },
     RemoveIssuer { i: usize },
     UpdateIssuer { i: usize, topics: Vec<u32> },
-    AddClaim { i: usize, t: u32 },
+    /// `v`: which of the issuer's two renderings of the claim (scheme 101 / data 7, scheme 102 / data 9)
+    AddClaim { i: usize, t: u32, v: u8 },
     RemoveClaim { i: usize, t: u32 },
     /// environment: issuer i confirms (true) / rejects (false) claims for topic t from now on
     Answer { i: usize, t: u32, confirm: bool },
@@ -80,11 +81,14 @@ impl Ver {
             Op::AddIssuer { i: k, topics } => (i.cti.clone(), "add_trusted_issuer", (i.issuers[*k].clone(), tv(topics)).into_val(e)),
             Op::RemoveIssuer { i: k } => (i.cti.clone(), "remove_trusted_issuer", (i.issuers[*k].clone(),).into_val(e)),
             Op::UpdateIssuer { i: k, topics } => (i.cti.clone(), "update_issuer_claim_topics", (i.issuers[*k].clone(), tv(topics)).into_val(e)),
-            Op::AddClaim { i: k, t } => (
-                i.identity.clone(),
-                "add_claim",
-                (*t, 101u32, i.issuers[*k].clone(), Bytes::from_array(e, &[1, 2, 3]), Bytes::from_array(e, &[4, 5]), SString::from_str(e, "uri")).into_val(e),
-            ),
+            Op::AddClaim { i: k, t, v } => {
+                let (s, d) = if *v == 0 { (1u8, 7u8) } else { (2u8, 9u8) };
+                (
+                    i.identity.clone(),
+                    "add_claim",
+                    (*t, 100 + s as u32, i.issuers[*k].clone(), Bytes::from_array(e, &[s, *t as u8, d]), Bytes::from_array(e, &[d]), SString::from_str(e, "uri")).into_val(e),
+                )
+            }
             Op::RemoveClaim { i: k, t } => {
                 let id = view(e, &i.identity, "claim_id", (i.issuers[*k].clone(), *t).into_val(e)).expect("claim_id");
                 (i.identity.clone(), "remove_claim", (BytesN::<32>::try_from_val(e, &id).unwrap(),).into_val(e))
@@ -176,11 +180,11 @@ impl World for Ver {
                 Op::AddTopic(1),
                 Op::AddTopic(2),
                 Op::AddIssuer { i: 0, topics: vec![1, 2] },
-                Op::AddClaim { i: 0, t: 1 },
-                Op::AddClaim { i: 0, t: 2 },
+                Op::AddClaim { i: 0, t: 1, v: 0 },
+                Op::AddClaim { i: 0, t: 2, v: 0 },
             ] {
                 assert!(self.exec(&i, &op), "seed op {op:?} refused");
-                if let Op::AddClaim { i: k, t } = op {
+                if let Op::AddClaim { i: k, t, .. } = op {
                     m.held[k][(t - 1) as usize] = true;
                 }
             }
@@ -205,7 +209,8 @@ impl World for Ver {
             }
             v.push(Op::RemoveIssuer { i });
             for t in TOPICS {
-                v.push(Op::AddClaim { i, t });
+                v.push(Op::AddClaim { i, t, v: 0 });
+                v.push(Op::AddClaim { i, t, v: 1 });
                 v.push(Op::RemoveClaim { i, t });
                 v.push(Op::Answer { i, t, confirm: !m.confirm[i][(t - 1) as usize] });
             }
@@ -233,7 +238,7 @@ impl World for Ver {
     fn step(&self, i: &mut Inst, m: &mut Model, op: &Op, cx: &mut StepCtx<Self>) -> Result<bool, Violation> {
         let ok = self.exec(i, op);
         match op {
-            Op::AddClaim { i: k, t } => {
+            Op::AddClaim { i: k, t, .. } => {
                 let ti = (*t - 1) as usize;
                 // add_claim acceptance <=> the issuer confirms the claim
                 ensure!(ok == m.confirm[*k][ti], "add_claim-acceptance", "add_claim for (I{}, topic {}) returned ok={} while the issuer's answer is confirm={}", k + 1, t, ok, m.confirm[*k][ti]);
